@@ -20,6 +20,7 @@
     step [CWrite]). *)
 From Coq Require Import NArith List Bool.
 From Snel Require Import Model.Shard Proofs.ShardC03Proofs Model.Compaction Proofs.CompactionProofs Proofs.ShardC11Proofs.
+From Snel Require Import Gen.Params Model.IndexSave Proofs.IndexSaveProofs.
 Import ListNotations.
 Open Scope N_scope.
 
@@ -264,3 +265,56 @@ Theorem C11_guards_flush_example :
   live (crun (init 2) (map CBase ls_ex)) = [0].
 Proof. exact guards_flush_example. Qed.
 Print Assumptions C11_guards_flush_example.
+
+(** "... atomically replace the shard's segment index".  The file-system steps of
+    [SegmentIndex::save] are read from the Rust source on every run
+    ([Params.index_save_steps], tools/params/p25_index_save.py) and run by
+    Model/IndexSave.v with a crash after every step (a created file passes through a
+    partially written state; rename is atomic - trusted).  [load] is what a restart
+    obtains from the index file: [None] = missing or unreadable = the engine falls
+    back to listing directories, published or not. *)
+
+(** At every crash point of a save of [new] over a published index [old], whatever an
+    earlier crash left in the temporary file ([t]) or elsewhere ([a]), a restart loads
+    the old index or the new one. *)
+Theorem C11_index_replaced_atomically :
+  forall (C : Type) (old new : C) (t a : option (cont C)),
+    Forall (fun s => load s = Some old \/ load s = Some new)
+           (states new (mkFs (Some (Full old)) t a) save_steps).
+Proof. exact index_replaced_atomically. Qed.
+Print Assumptions C11_index_replaced_atomically.
+
+Theorem C11_index_save_installs_new :
+  forall (C : Type) (old new : C) (t a : option (cont C)),
+    load (final new (mkFs (Some (Full old)) t a) save_steps) = Some new.
+Proof. exact index_save_installs_new. Qed.
+Print Assumptions C11_index_save_installs_new.
+
+(** Whatever the start (an index or none), the index name never holds a partially
+    written file at any crash point. *)
+Theorem C11_index_never_partial :
+  forall (C : Type) (new : C) (i : option C) (t a : option (cont C)),
+    Forall (fun s => f_idx s <> Some Partial)
+           (states new (mkFs (option_map Full i) t a) save_steps).
+Proof. exact index_never_partial. Qed.
+Print Assumptions C11_index_never_partial.
+
+(** Sensitivity: moving the index to a backup before the rename, or writing it in
+    place, has a crash state without a readable index. *)
+Theorem C11_index_backup_first_refuted :
+  exists s, In s (states 1%nat (mkFs (Some (Full 0%nat)) None None) backup_first_steps) /\ load s = None.
+Proof. exact backup_first_refuted. Qed.
+Print Assumptions C11_index_backup_first_refuted.
+
+Theorem C11_index_in_place_refuted :
+  exists s, In s (states 1%nat (mkFs (Some (Full 0%nat)) None None) in_place_steps) /\ load s = None.
+Proof. exact in_place_refuted. Qed.
+Print Assumptions C11_index_in_place_refuted.
+
+(** Non-vacuity: the protocol read from the source passes through four states and ends
+    with the new index in place and no temporary file. *)
+Theorem C11_index_save_example :
+  map load (states 1%nat (mkFs (Some (Full 0%nat)) (Some Partial) None) save_steps) = [Some 0%nat; Some 0%nat; Some 0%nat; Some 1%nat] /\
+  final 1%nat (mkFs (Some (Full 0%nat)) (Some Partial) None) save_steps = mkFs (Some (Full 1%nat)) None None.
+Proof. exact index_save_example. Qed.
+Print Assumptions C11_index_save_example.
